@@ -134,6 +134,38 @@ theorem flush_bits (b : Bitfield) (f : File) (hf : f.size % Spec.pageBytes = 0)
         exact File.getD_of_le _ _ (by simp only [File.size] at h1; omega)
       simp [h1, hz]
 
+/-- the store after writing any list of pages: those pages hold the bits in memory, the others are
+    untouched (the states a crash inside a flush can leave) -/
+theorem writePages_bits (b : Bitfield) (f : File) (hf : f.size % Spec.pageBytes = 0) (ps : List Nat) :
+    (∀ i, (Bitfield.ofFile (writePages b f ps)).get i = if i / Spec.pageBits ∈ ps then b.get i else (Bitfield.ofFile f).get i)
+      ∧ (writePages b f ps).size % Spec.pageBytes = 0 := by
+  obtain ⟨s1, s2, s3, s4⟩ := writePages_spec b ps f hf
+  refine ⟨fun i => ?_, s1⟩
+  have hP : Spec.pageBytes = 4096 := rfl
+  have hB : Spec.pageBits = 32768 := rfl
+  have hpage : i / 8 / Spec.pageBytes = i / Spec.pageBits := by rw [hP, hB]; omega
+  have hmod4 : ∀ g : File, g.size % Spec.pageBytes = 0 → g.size - g.size % 4 = g.size := by
+    intro g hg; rw [hP] at hg; omega
+  rw [ofFile_get, hmod4 _ s1, s4 (i / 8), hpage]
+  by_cases hd : i / Spec.pageBits ∈ ps
+  · have hsz := s3 _ hd
+    have hlt : i < (writePages b f ps).size * 8 := by
+      rw [hP, hB] at *; omega
+    simp only [hd, ite_true, hlt, decide_true, Bool.true_and]
+    have := bitsToByte_bit b.bits (i / 8 * 8) (i % 8) (Nat.mod_lt _ (by decide))
+    have e : i / 8 * 8 + i % 8 = i := by omega
+    rw [e] at this
+    simpa [Bitfield.get] using this
+  · simp only [hd, ite_false]
+    rw [ofFile_get, hmod4 f hf]
+    by_cases h1 : i < f.size * 8
+    · have : i < (writePages b f ps).size * 8 := by omega
+      simp [h1, this]
+    · have hz : f.byte (i / 8) = 0 := by
+        simp only [File.byte]
+        exact File.getD_of_le _ _ (by simp only [File.size] at h1; omega)
+      simp [h1, hz]
+
 /-! ### dirty pages -/
 
 theorem rangeDiffers_true (bits : Array Bool) (v : Bool) : ∀ (n start i : Nat), start ≤ i → i < start + n →
